@@ -13,8 +13,8 @@ import (
 func init() {
 	scenarios["probe"] = scenario{main: faultPre}
 	scenarios["fault"] = scenario{pre: faultPre, main: faultMain}
-	for _, p := range []string{"C13", "C14", "C15", "C17"} {
-		generators[p] = GenFault
+	for _, p := range []string{"C14", "C15"} {
+		generators[p] = GenFault // C13 and C17 use mixtures, see gens.go
 	}
 }
 
@@ -121,6 +121,11 @@ func faultMain(x *X) {
 		default:
 			x.Probe("cancel-error-ok")
 		}
+	}
+
+	if o.Acct != nil && len(o.Acct.LiveAfterCancel) > 0 && !(o.Fallback && op.ClientClose) {
+		// (on the fallback path Close() is the reference engine's, which does not cancel)
+		x.Viol("C14", "cancel-ignored", "cancel-ignored|"+path, fmt.Sprintf("%s: Cancel()/Close() returned while Exec was running, yet storage callbacks %v still ran with a live context: the cancellation did not reach the query", op.Q, o.Acct.LiveAfterCancel))
 	}
 
 	// ---- C15 -------------------------------------------------------------------------------
